@@ -4,6 +4,7 @@ Each feature the runtime treats differently occurs at least once: nesting,
 aliasing, producer kind, binding form, map mode x length source, disabling,
 preflight, splitting with 0/1/2 chunks.
 """
+import mro
 from mro import (T, arrx, call, collect, const, echo, length, lit, objx, params, pipeline,
                  program, ref, self_, split, stage, struct, INST, CI, NONE)
 
@@ -196,6 +197,32 @@ def catalogue(big=False):
                                 call("INNER", binds={"x": split(ref("DATA", "xs")), "skip": split(ref("FLAGS", "skips"))}, mode="array")],
                                {"o": ref("INNER", "y")})], "TOP", {}))
 
+    # 8i. per-element flags given as a literal array that mixes literal false with references
+    #     to stage outputs (true / false at run time), directly and as members of struct literals
+    for nm, flags in (("dis_lit_flag_ref", ("F", "T")), ("dis_lit_flag_ref2", ("T", "F", "F"))):
+        fl = mro.arrx(*([lit(False)] + [ref("FL", "t" if f == "T" else "f") for f in flags]))
+        xs = lit(list(range(10, 10 + 10 * (len(flags) + 1), 10)))
+        P.append(program(nm, [],
+                         [stage("FL", "", "bool t, bool f", {"t": const(True), "f": const(False)}), S_echo("WORK")],
+                         [pipeline("INNER", "int x, bool skip", "int y",
+                                   [call("WORK", binds={"x": self_("x")}, dis=self_("skip"))],
+                                   {"y": ref("WORK", "y")}),
+                          pipeline("TOP", "", "int[] o",
+                                   [call("FL"),
+                                    call("INNER", binds={"x": split(xs), "skip": split(fl)}, mode="array")],
+                                   {"o": ref("INNER", "y")})], "TOP", {}))
+    P.append(program("dis_lit_struct_flag", [struct("ITEM", "int v, bool skip")],
+                     [stage("FL", "", "bool t, bool f", {"t": const(True), "f": const(False)}), S_echo("WORK")],
+                     [pipeline("INNER", "ITEM item", "int y",
+                               [call("WORK", binds={"x": self_("item", "v")}, dis=self_("item", "skip"))],
+                               {"y": ref("WORK", "y")}),
+                      pipeline("TOP", "", "int[] o",
+                               [call("FL"),
+                                call("INNER", binds={"item": split(mro.arrx(mro.objx(v=lit(1), skip=lit(False)),
+                                                                            mro.objx(v=lit(2), skip=ref("FL", "t")),
+                                                                            mro.objx(v=lit(3), skip=ref("FL", "f"))))}, mode="array")],
+                               {"o": ref("INNER", "y")})], "TOP", {}))
+
     # 9. splitting stage with run-time chunk count 2 / 0 and a consumer
     for nm, val in (("split2", [1, 2]), ("split0", []), ("split1", [5]), ("split10", list(range(10)))):
         P.append(program(nm, [], [S_split("S"), stage("R", "int[] xs", "int n", {"n": length("xs")})],
@@ -258,6 +285,17 @@ def catalogue(big=False):
                                 call("R", binds={"xs": ref("S", "ys")})],
                                {"o": ref("S", "ys"), "n": ref("R", "n")})], "TOP", {"xs": [7, 8, 9]}))
 
+    # 13b. splitting stage with chunk outputs but no stage-level output at all (the join
+    #      still has to be handed the chunk outputs), next to an ordinary stage
+    P.append(program("split_noouts", [],
+                     [stage("S", "int[] xs", "", {}, split=True, chunks={"k": "len", "src": "xs"},
+                            couts="int co, string tag", crules={"co": CI, "tag": INST}),
+                      stage("R", "int[] xs", "int n", {"n": length("xs")})],
+                     [pipeline("TOP", "int[] xs", "int n",
+                               [call("S", binds={"xs": self_("xs")}),
+                                call("R", binds={"xs": self_("xs")})],
+                               {"n": ref("R", "n")})], "TOP", {"xs": [7, 8, 9]}))
+
     # 14. two mapped levels: the inner map call splits the output of a stage that is
     #     itself forked by the outer map call
     P.append(program("map_nested", [],
@@ -282,6 +320,21 @@ def catalogue(big=False):
                           pipeline("TOP", "int[] ns", "int[][] o",
                                    [call("SUB", binds={"n": split(self_("ns"))}, mode="array")],
                                    {"o": ref("SUB", "ys")})], "TOP", {"ns": ns}))
+
+    # 14b'. inner collections of different lengths (one element first / last, three outer forks);
+    #       the results of the inner call are not returned (merging results of different
+    #       lengths is the recorded finding nest_static_ragged)
+    for nm, ns in (("map_nested_noret_13", [1, 3]), ("map_nested_noret_31", [3, 1]), ("map_nested_noret_212", [2, 1, 2]),
+                   ("map_nested_noret_12", [1, 2])):
+        P.append(program(nm, [],
+                         [S_echo("X"), stage("MK2", "int n", "int[] arr", {"arr": {"k": "arrn", "src": "n"}})],
+                         [pipeline("SUB", "int n", "int k",
+                                   [call("MK2", binds={"n": self_("n")}),
+                                    call("X", binds={"x": split(ref("MK2", "arr"))}, mode="array")],
+                                   {"k": self_("n")}),
+                          pipeline("TOP", "int[] ns", "int[] o",
+                                   [call("SUB", binds={"n": split(self_("ns"))}, mode="array")],
+                                   {"o": ref("SUB", "k")})], "TOP", {"ns": ns}))
 
     # 14c. statically nested mapped calls over every combination of array and typed map,
     #      the inner collection handed down unchanged
